@@ -168,12 +168,68 @@ def r7_finished_handshake_not_restarted(cx):
         cx.check("returns-from:" + name, any(x in reach for x in hi.cfg.exits), site_of(hi), "handle_init returns when entered in stage %s" % name)
 
 
+def r8_no_constant_aead_key(cx):
+    """Every key slot accepts whatever opens under its key, and the slot is chosen by an unauthenticated byte: a slot
+    whose key an outsider can know lets him fabricate sealed datagrams (a CLOSE, say).  Rule: the key material given
+    to ring's UnboundKey::new never originates from a constant buffer (vec![c; n], [c; n], a literal) - it comes from
+    the random source or a key derivation."""
+    prog = cx.prog
+    sites = []
+    for b in prog.bodies:
+        if not b.file.startswith("src/crypto/"):
+            continue
+        for ci, ct in b.calls():
+            if callee_is(ct, "ring::aead::UnboundKey::new", "aead::UnboundKey::new") and len(ct["args"]) >= 2:
+                sites.append((b, ci, ct))
+    cx.floor("key-constructions", len(sites), 3, "UnboundKey::new call sites in src/crypto")
+    for (b, ci, ct) in sites:
+        cx.touch(b)
+        cur = ct["args"][1]
+        const_src = None
+        for _ in range(8):
+            o = origin(b, cur)
+            if o[0] == "const":
+                const_src = "a constant"
+                break
+            if o[0] == "rvalue":
+                rv = o[2]["rv"]
+                if rv["k"] == "repeat" and rv["op"].get("k") == "const":
+                    const_src = "[const; n]"
+                    break
+                if rv["k"] == "ref":
+                    cur = {"k": "copy", "place": rv["place"]}
+                    continue
+                if rv["k"] == "aggregate" and rv.get("agg") == "array" and all(x.get("k") == "const" for x in rv["ops"]):
+                    const_src = "a literal array"
+                break
+            if o[0] == "call":
+                t2 = o[2]
+                if callee_is(t2, "vec::from_elem") and t2["args"] and t2["args"][0].get("k") == "const":
+                    const_src = "vec![const; n]"
+                    break
+                if callee_is(t2, "ops::Deref::deref", "ops::Index::index", "ops::DerefMut::deref_mut", "convert::AsRef::as_ref", "vec::Vec::as_slice", "borrow::Borrow::borrow") and t2["args"]:
+                    cur = t2["args"][0]
+                    continue
+                break
+            if o[0] == "place":
+                r = o[1]
+                ds = defuse(b).defs.get(r["l"], [])
+                if len(ds) == 1 and ds[0][0] == "call":
+                    t2 = ds[0][2]
+                    if callee_is(t2, "vec::from_elem") and t2["args"] and t2["args"][0].get("k") == "const":
+                        const_src = "vec![const; n]"
+                break
+            break
+        cx.check("key-not-constant:" + b.name, const_src is None, site_of(b, ci), "the AEAD key is not built from %s" % (const_src or "constant bytes"))
+
+
 RULES = [
     ("C09.R1", r1_who_may_remove, "who may remove a peer: timeout sweep, CLOSE arm, crypto tick failure"),
     ("C09.R2", r2_dispatch_priority, "dispatch priority: pending handshake objects see only handshake datagrams or non-peers"),
     ("C09.R3", r3_removal_attribution, "a peer is removed in the crypto tick only for its own failure (provenance)"),
     ("C09.R5", r5_routes_dropped_only_with_peer, "routes of an address are dropped only together with (or in the absence of) its peer"),
     ("C09.R7", r7_finished_handshake_not_restarted, "a finished (lingering / closing) handshake object is never restarted by a datagram"),
+    ("C09.R8", r8_no_constant_aead_key, "no AEAD key slot is keyed with constant (publicly known) bytes"),
     ("C09.R6", c02.r5_open_checked_before_state, "the receive window of a connection is advanced only behind a successful AEAD open (= C02.R5): a forged datagram cannot move it"),
 ]
 
